@@ -278,6 +278,44 @@ def signature_invariance(F, rep, rule):
                eqc[0].span, fn=eqc[0].path, key=key)
     rep.floor(rule + " element-type evaluations", m, 6)
     container_invariance(F, rep, eqc[0], fl, ty)
+    or_fallback_is_asked_of_eq_complex(F, rep)
+
+
+def or_fallback_is_asked_of_eq_complex(F, rep, rule="C03.or-fallback"):
+    """`(x) or y` has the type x has when it is present; y has to fit it, and the question is eq_complex(expected = that type, supplied = y's type).
+    `==` / `!=` on two TypeLayouts is not that question with the sides free: ListType's hand-written PartialEq *is* the directional relation, so
+    `fallback_ty != *ty` (the supplied type on the left) calls `[int?...]` equal to `[int...]`.  In the body that reports "The `or` portion of this
+    unwrap must yield ..", no comparison of two types with == / != stands in front of the eq_complex call with an edge that reaches the successful
+    return around it."""
+    hint = "compiler::ast::r#type::TypeLayout::get_error_hint_between_types"
+    bodies = [g for g in F.crates["compiler"].fns if "math_expr::parse_expr" in g.path and g.calls_to(hint)]
+    rep.floor(rule + " bodies that report a wrong `or` fallback", len(bodies), 1)
+    for g in bodies:
+        eqs = [c for c in g.calls() if c.callee().endswith("TypeLayout::eq_complex") and c.target is not None
+               and any(h.bb in g.reachable(c.target) for h in g.calls_to(hint))]
+        if not eqs:
+            rep.ob(rule, "%s: the fallback's type is asked of eq_complex" % mir.short(g.path), "violated", "no eq_complex call stands in front of the `or` diagnostic",
+                   g.span, fn=g.path, key="%s|%s" % (rule, mir.short(g.path)))
+            continue
+        okr = set(rules.ok_return_blocks(g))
+        E = {c.bb for c in eqs}
+        bypass = []
+        for q in g.calls():
+            if not (q.callee().endswith(("::eq", "::ne")) and len(q.args) == 2 and q.dst is not None):
+                continue
+            if not any("TypeLayout" in g.locals[op_local(a)] for a in q.args if op_local(a) is not None):
+                continue
+            if not any(g.dominates(q.bb, e) for e in E):
+                continue
+            der = g.derived([q.dst["l"]])
+            for bb, t_t, f_t, pol in rules.bool_switches(g, der):
+                for edge in (t_t, f_t):
+                    if not (g.reachable(edge) & E) and (g.reachable(edge, removed_blocks=E) & okr):
+                        bypass.append(q.span)
+        rep.ob(rule, "%s: no == / != between two types lets a fallback pass around eq_complex" % mir.short(g.path), "violated" if bypass else "ok",
+               ("a == / != on two TypeLayouts at %s has an edge that reaches the successful return without eq_complex: with the supplied type on the left, ListType's "
+                "directional PartialEq accepts `[int?...]` as a fallback for `[int...]?`; the result is typed `[int...]` and holds nil" % sorted(set(bypass))[:2]) if bypass else "",
+               eqs[0].span, fn=g.path, key="%s|%s" % (rule, mir.short(g.path)))
 
 
 def container_invariance(F, rep, eqc, fl, ty, rule="C03.container-invariance"):
